@@ -171,7 +171,7 @@ def g2_g3(repo, res):
             inline = True
             for st in (x for x in ast.walk(s) if isinstance(x, ast.Assign) and any(ast.unparse(t) == own for t in x.targets)):
                 v = st.value
-                self_valid = isinstance(v, ast.Call) and ((call_name(v) or "").startswith(("color_validator", "validate_", "_validate_", "check_", "str", "float", "int", "bool", "tuple"))
+                self_valid = isinstance(v, ast.Constant) or isinstance(v, ast.Call) and ((call_name(v) or "").startswith(("color_validator", "validate_", "_validate_", "check_", "str", "float", "int", "bool", "tuple"))
                                                           or (call_name(v) or "")[:1].isupper())
                 sc = branch_chain(st)
                 covered = any(x.lineno <= st.lineno and all(b in sc for b in branch_chain(x) if b[1] != "test") for x in vals)
@@ -295,6 +295,23 @@ def g5(repo, res):
                     and n.targets[0].value.id in bnames and any(isinstance(x, ast.Name) and x.id in fnames for x in ast.walk(n.value)):
                 ok = True
                 fam = fam + [n]
+    if not ok:
+        # layered form: L = [<base defaults>] ; L.append(<family defaults>) ... ; for layer in L: acc.update(layer)   (later layers win)
+        for a_ in ast.walk(fn):
+            if isinstance(a_, ast.Assign) and len(a_.targets) == 1 and isinstance(a_.targets[0], ast.Name) and isinstance(a_.value, ast.List) and len(a_.value.elts) == 1 \
+                    and "base" in ast.unparse(a_.value.elts[0]):
+                L_ = a_.targets[0].id
+                apps = [c for c in ast.walk(fn) if isinstance(c, ast.Call) and isinstance(c.func, ast.Attribute) and c.func.attr == "append"
+                        and isinstance(c.func.value, ast.Name) and c.func.value.id == L_ and c.args]
+                fam_apps = [c for c in apps if "famil" in ast.unparse(c.args[0]) or any(isinstance(x, ast.Name) and ("famil" in x.id) for x in ast.walk(c.args[0]))]
+                folds = [lp for lp in ast.walk(fn) if isinstance(lp, ast.For) and isinstance(lp.iter, ast.Name) and lp.iter.id == L_ and isinstance(lp.target, ast.Name)
+                         and any(isinstance(c, ast.Call) and isinstance(c.func, ast.Attribute) and c.func.attr == "update" and c.args and isinstance(c.args[0], ast.Name)
+                                 and c.args[0].id == lp.target.id for c in ast.walk(lp))]
+                other_writes = [x for x in ast.walk(fn) if isinstance(x, ast.Call) and isinstance(x.func, ast.Attribute) and isinstance(x.func.value, ast.Name)
+                                and x.func.value.id == L_ and x.func.attr in ("insert", "reverse", "sort", "extend", "pop", "remove")]
+                if apps and len(fam_apps) == len(apps) and folds and not other_writes and all(lp.lineno > max(c.lineno for c in apps) for lp in folds):
+                    ok = True
+                    fam = fam + apps
     res.ob("G5:family defaults overwrite base defaults", ok, {"rule": "G5", "updates": [norm(c) for c in fam], "base_dicts": sorted(base_names)})
     if not ok:
         res.add(Finding("G5", sm.rel, "get_style", fam[0] if fam else fn, "family defaults must be merged over the base defaults (base.update(family))"))
@@ -370,12 +387,31 @@ def g9(repo, res):
     import origin_rules
     from origin_rules import O, org_of, run_node, find_ast
     G = "magpylib._src.obj_classes.class_BaseGeo"
-    node = find_ast(G, "BaseGeo._validate_style")
-    out, dom, it = run_node(G, node, dict(self=O({"A:self"}), val=O({"P:val"})), name="BaseGeo._validate_style")
-    leak = sorted(o for o in org_of(out) if o.startswith("P:"))
-    res.ob("G4b:_validate_style never returns the caller's object", not leak, {"rule": "G4b", "returns": repr(out)})
+    # judged on the style setter itself (what it stores in `_style`), through whatever helper it delegates to
+    node = find_ast(G, "BaseGeo.style", True)
+    pname = node.args.args[1].arg
+    out, dom, it = run_node(G, node, {"self": O({"A:self"}), pname: O({"P:val"})}, name="BaseGeo.style[set]")
+    stores = [x for x in dom.attr_stores if x[1] == "_style"]
+    res.require(stores, "anchor vanished: the style setter no longer stores `_style`")
+    leak = sorted({o for x in stores for o in x[2] if o.startswith("P:")})
+    # a value produced by a method of the object itself (`self._style = self._validate_style(val)`): what that method returns
+    for a_ in ast.walk(node):
+        if isinstance(a_, ast.Assign) and any(isinstance(t, ast.Attribute) and t.attr == "_style" for t in a_.targets) and isinstance(a_.value, ast.Call) \
+                and isinstance(a_.value.func, ast.Attribute) and isinstance(a_.value.func.value, ast.Name) and a_.value.func.value.id == "self":
+            try:
+                hnode = find_ast(G, "BaseGeo." + a_.value.func.attr)
+            except Exception:  # noqa - not a method of BaseGeo itself
+                continue
+            hp = [x.arg for x in hnode.args.args][1:]
+            bind = {"self": O({"A:self"})}
+            for prm, arg in list(zip(hp, a_.value.args)) + [(k.arg, k.value) for k in a_.value.keywords if k.arg]:
+                if any(isinstance(x, ast.Name) and x.id == pname for x in ast.walk(arg)):
+                    bind[prm] = O({"P:val"})
+            out_h, _d, _i = run_node(G, hnode, bind, name="BaseGeo." + a_.value.func.attr)
+            leak = sorted(set(leak) | {o for o in org_of(out_h) if o.startswith("P:")})
+    res.ob("G4b:the style setter never adopts the caller's object", not leak, {"rule": "G4b", "stored_origins": [sorted(x[2]) for x in stores]})
     if leak:
-        res.add(Finding("G4b", "magpylib/_src/obj_classes/class_BaseGeo.py", "BaseGeo._validate_style", f"returns {leak}",
+        res.add(Finding("G4b", "magpylib/_src/obj_classes/class_BaseGeo.py", "BaseGeo.style (setter)", f"stores {leak} in _style",
                         "assigning another object's style would make both objects share one style instance (later edits leak)"))
 
 
